@@ -964,11 +964,18 @@ def regenerate():
     except Unsupported as e:
         return "unsupported-node: %s (kept the committed Gen/SqlSites.lean)" % (str(e)[:300],)
     old = open(GEN).read() if os.path.exists(GEN) else ""
+    changed = ""
     if text != old:
         open(GEN, "w").write(text)
-    return "regenerated (%s): %d entry points (%d mutators, %d observers), %d functions with SQL events" % (
+        # which functions' skeletons differ from the committed translation (names the entry point behind a failing `decide`)
+        def defs(t):
+            return dict(re.findall(r"/-- `(.*?)` -/\ndef \S+ : Sk := (.*)", t))
+        a, b = defs(old), defs(text)
+        diff = sorted(k for k in set(a) | set(b) if a.get(k) != b.get(k))
+        changed = "; skeleton changed: " + ", ".join(d[:60] for d in diff[:8]) + (" …" if len(diff) > 8 else "")
+    return "regenerated (%s): %d entry points (%d mutators, %d observers), %d functions with SQL events%s" % (
         "identical" if text == old else "CHANGED", status["entries"], status["mutators"], status["observers"],
-        status["functions_with_events"])
+        status["functions_with_events"], changed)
 
 
 if __name__ == "__main__":
